@@ -6,6 +6,10 @@ import (
 	"strings"
 )
 
+// storing a variable into a container can close a cycle; String() of a cyclic value overflows
+// the Go stack of the implementation (a fatal error that takes the harness down)
+var containerStoreOfVar = regexp.MustCompile(`(?m)^\s*[a-z]\w*(\[[^\]\n]*\]|\.[abk]) = .*\b[a-z]+\d+\b`)
+
 var loopCounterAssign = regexp.MustCompile(`\bi\d+ *(=[^=]|\+=|-=|\*=|--)`)
 
 // EvalScript is a script made of top-level statements that stream `eval` (C10) cuts
@@ -63,6 +67,7 @@ func EvalSourceModules() map[string]string {
 func EvalProgram(r *Rand, eo EvalOpts) *EvalScript {
 	o := DefaultProgOpts()
 	o.NoTopReturn = true
+	o.SingleKeyMaps = true
 	o.Params = 0
 	o.Decls = true
 	o.Floats = eo.Floats
@@ -159,12 +164,13 @@ func (g *evalGen) top() {
 		before := append([]string{}, sc.vars...)
 		var sb strings.Builder
 		for try := 0; ; try++ {
-			// a statement that assigns to a loop counter may never end: draw again
+			// a statement that assigns to a loop counter may never end, one that stores a
+			// variable into a container may build a cyclic value: draw again
 			// (declarations made by the rejected draw are dropped with it)
 			saveVars, saveFuncs := append([]string{}, sc.vars...), append([]string{}, sc.funcs...)
 			sb.Reset()
 			g.stmt(&sb, sc, 0, "")
-			if !loopCounterAssign.MatchString(sb.String()) {
+			if !loopCounterAssign.MatchString(sb.String()) && !containerStoreOfVar.MatchString(sb.String()) {
 				break
 			}
 			sc.vars, sc.funcs = saveVars, saveFuncs
